@@ -29,6 +29,13 @@ from bitcoin.core.contrib.ripemd160 import ripemd160
 # we're not exporting the whole contents of the script module.
 from bitcoin.core.script import *
 
+# Verification hook (off unless PYTHON_BITCOINLIB_VERIF=1 is set at import and
+# a harness installs a callback): observes _EvalScript at entry and after
+# every opcode. Never changes behaviour.
+import os as _os
+_VERIF_ENABLED = _os.environ.get('PYTHON_BITCOINLIB_VERIF') == '1'
+_verif_hook = None
+
 MAX_NUM_SIZE = 4
 MAX_STACK_ITEMS = 1000
 
@@ -363,6 +370,9 @@ def _EvalScript(stack, scriptIn, txTo, inIdx, flags=()):
     """Evaluate a script
 
     """
+    if _VERIF_ENABLED and _verif_hook is not None:
+        _verif_hook('begin', scriptIn, stack, txTo, inIdx, flags)
+
     if len(scriptIn) > MAX_SCRIPT_SIZE:
         raise EvalScriptError('script too large; got %d bytes; maximum %d bytes' %
                                         (len(scriptIn), MAX_SCRIPT_SIZE),
@@ -695,6 +705,9 @@ def _EvalScript(stack, scriptIn, txTo, inIdx, flags=()):
         # size limits
         if len(stack) + len(altstack) > MAX_STACK_ITEMS:
             err_raiser(EvalScriptError, 'max stack items limit reached')
+
+        if _VERIF_ENABLED and _verif_hook is not None:
+            _verif_hook('step', sop, sop_pc, stack, altstack, vfExec, nOpCount[0], pbegincodehash)
 
     # Unterminated IF/NOTIF/ELSE block
     if len(vfExec):
